@@ -409,3 +409,7 @@ def run(ck):
     n = c04.handover_after_suspension(ck, P, arms={"Check", "Length"})
     ck.floor("PAIR/handover-after-suspension:trailer", n, 3)
     ck.assumptions += ["rustc MIR", "arm regions = blocks dominated by the mode switch targets", "host target; K1"]
+
+# session 5 (round 9, D24)
+EXPLANATION = EXPLANATION + " " + (
+    "ATOM/c-truthiness: inflateValidate's int parameter becomes the bool of inflate::validate by `!= 0`.")
